@@ -32,7 +32,9 @@ var owned = map[string]bool{
 func TestCheck(t *testing.T) {
 	run := vlib.Start(t, "C08", "fault_enumeration")
 	defer run.Finish()
-	run.Rule("Two drivers over the real reactive package (WriteThenReadDelay=0, minRerunInterval 200-1000us). " +
+	run.Rule("Two drivers over the real reactive package (reactive.WriteThenReadDelay seeded per scenario: 0 in ~40%, else 0.3-2 ms; minRerunInterval 200-1000us). " +
+		"Cached children can hang off a 'switch' cell (used only while its version is odd), so cache keys drop out of a computation - the child is released while possibly still cached - and come back; the matrix base workload switches two such children off, changes their leaves and switches them on again. " +
+		"When the delay is non-zero, Stops are aimed at the write-then-read delay of a re-run (write to a cell the rerunner reads, sleep part of the delay, Stop). " +
 		"TARGETED: the complete matrix {cache.locked, cache.hit, cache.miss, cache.set, reactive.release.flagged, reactive.release.edge, rerunner.run.cleaned} x " +
 		"{invalidate a direct leaf, invalidate a cached child's other leaf, Stop, PurgeCache} x {visit 1..3} x {alwaysSpawnGoroutine false,true}; base workload = 3 rerunners over 5 cells, cached children a(c2,c3), b(c3)->g(c2), g also used by the root (key shared by siblings), " +
 		"conditional leaf (resource released while the rerunner lives), one planned retry (cache purged by thunder), PurgeCache between runs, InvalidateAfter / timer resources 1.5-5 ms, paced writes of both styles, Stop half-way; unfired cells are retried with up to 2 more schedules. " +
